@@ -94,21 +94,21 @@ class jacobian_materialize(Jacobian):
         _ = self._verify_fun_and_x(lambda s: fun(s, **fun_kwargs), x)
 
         fx = fun(x, **fun_kwargs)
-        dfx = func.jacfwd(lambda s: fun(s, **fun_kwargs))(x)
+        dfx = self.jacfun(lambda s: fun(s, **fun_kwargs))(x)
         return fx, dfx, state
 
     def calculate_trace_along_d(self, fun, x, state, /, **fun_kwargs):
         _ = self._verify_fun_and_x(lambda s: fun(s, **fun_kwargs), x)
 
         fx = fun(x, **fun_kwargs)
-        dfx = func.jacfwd(lambda s: fun(s, **fun_kwargs))(x)
+        dfx = self.jacfun(lambda s: fun(s, **fun_kwargs))(x)
         dfx_trace = linalg.trace(dfx, axis1=1, axis2=3)
         return fx, dfx_trace, state
 
     def calculate_diagonal_along_d(self, fun, x, state, /, **fun_kwargs):
         _ = self._verify_fun_and_x(lambda s: fun(s, **fun_kwargs), x)
         fx = fun(x, **fun_kwargs)
-        dfx = func.jacfwd(lambda s: fun(s, **fun_kwargs))(x)
+        dfx = self.jacfun(lambda s: fun(s, **fun_kwargs))(x)
         dfx_diagonal = linalg.einsum("mdnd->dmn", dfx)
         return fx, dfx_diagonal, state
 
